@@ -4,6 +4,8 @@ import (
 	"fmt"
 	"io"
 	"os"
+	"package-operator.run/internal/apis/manifests"
+	hypershiftv1beta1 "package-operator.run/internal/controllers/hostedclusters/hypershift/v1beta1"
 	"sort"
 
 	"github.com/go-logr/logr"
@@ -35,24 +37,62 @@ type World struct {
 	AnnotationPhases bool
 	// Images: the scripted registry of the Package controller harness
 	Images map[string]fixture
+	// HyperShift: the environment reports a HyperShift management cluster (EnableHyperShift)
+	HyperShift bool
 	// TemplateBase: the family of template variants the user's template edits of this scenario choose from
 	TemplateBase int
 }
 
 var (
-	gvkConfigMap    = schema.GroupVersionKind{Version: "v1", Kind: "ConfigMap"}
-	gvkSecret       = schema.GroupVersionKind{Version: "v1", Kind: "Secret"}
-	gvkNamespace    = schema.GroupVersionKind{Version: "v1", Kind: "Namespace"}
-	gvkWidget       = schema.GroupVersionKind{Group: "example.verif", Version: "v1", Kind: "Widget"}
-	gvkClusterThing = schema.GroupVersionKind{Group: "example.verif", Version: "v1", Kind: "ClusterThing"}
-	gvkGhost        = schema.GroupVersionKind{Group: "example.verif", Version: "v1", Kind: "Ghost"}
+	gvkConfigMap     = schema.GroupVersionKind{Version: "v1", Kind: "ConfigMap"}
+	gvkSecret        = schema.GroupVersionKind{Version: "v1", Kind: "Secret"}
+	gvkNamespace     = schema.GroupVersionKind{Version: "v1", Kind: "Namespace"}
+	gvkWidget        = schema.GroupVersionKind{Group: "example.verif", Version: "v1", Kind: "Widget"}
+	gvkClusterThing  = schema.GroupVersionKind{Group: "example.verif", Version: "v1", Kind: "ClusterThing"}
+	gvkGhost         = schema.GroupVersionKind{Group: "example.verif", Version: "v1", Kind: "Ghost"}
+	gvkHostedCluster = hypershiftv1beta1.GroupVersion.WithKind("HostedCluster")
 )
+
+// HostedNS is the namespace of the hosted cluster hc/one of the HyperShift scenarios.
+const HostedNS = "hc-one"
+
+// theEnvironment is what the environment manager would have probed: plain Kubernetes, or a HyperShift management cluster.
+func (w *World) theEnvironment() *manifests.PackageEnvironment {
+	env := &manifests.PackageEnvironment{Kubernetes: manifests.PackageEnvironmentKubernetes{Version: "v1.28.0"}}
+	if w.HyperShift {
+		env.HyperShift = &manifests.PackageEnvironmentHyperShift{}
+	}
+	return env
+}
+
+// referenceEnvironment: the environment of a namespace, computed independently of the Sink.
+func (w *World) referenceEnvironment(ns string) manifests.PackageEnvironment {
+	env := *w.theEnvironment()
+	if w.HyperShift {
+		env.HyperShift = &manifests.PackageEnvironmentHyperShift{}
+		if ns == HostedNS && w.Store.Snapshot(Key{gvkHostedCluster.Group, "HostedCluster", "hc", "one"}) != nil {
+			env.HyperShift.HostedCluster = &manifests.PackageEnvironmentHyperShiftHostedCluster{
+				TemplateContextObjectMeta: manifests.TemplateContextObjectMeta{Name: "one", Namespace: "hc"}, HostedClusterNamespace: HostedNS}
+		}
+	}
+	return env
+}
+
+// EnableHyperShift turns the world into a HyperShift management cluster with one hosted cluster (namespace hc-one).
+func (w *World) EnableHyperShift() {
+	w.HyperShift = true
+	w.BuildControllers()
+	w.EnvCreate(Obj(gvkNamespace, "", "hc"))
+	w.EnvCreate(Obj(gvkNamespace, "", HostedNS))
+	w.EnvCreate(Obj(gvkHostedCluster, "hc", "one"))
+}
 
 func NewWorld(out io.Writer) *World {
 	w := &World{Sim: NewSim(out)}
 	w.Scheme = runtime.NewScheme()
 	must(clientgoscheme.AddToScheme(w.Scheme))
 	must(pkoapis.AddToScheme(w.Scheme))
+	must(hypershiftv1beta1.AddToScheme(w.Scheme))
 	w.Dyn.SetScheme(w.Scheme)
 	st := w.Store
 	gv := corev1alpha1.GroupVersion
@@ -66,6 +106,7 @@ func NewWorld(out io.Writer) *World {
 	st.Register(gvkWidget, true, false)
 	st.AlsoServe(gvkWidget.GroupKind().WithVersion("v2"), true) // a second served version of the same resource
 	st.Register(gvkClusterThing, false, false)
+	st.Register(gvkHostedCluster, true, true)
 	w.Client = w.NewClient(w.Scheme, "client")
 	w.Uncached = w.NewClient(w.Scheme, "uncached")
 	w.BuildControllers()
@@ -168,7 +209,7 @@ func toPhases(phases []PhaseSpec) []corev1alpha1.ObjectSetTemplatePhase {
 func StdProbes() []corev1alpha1.ObjectSetProbe {
 	return []corev1alpha1.ObjectSetProbe{{
 		Selector: corev1alpha1.ProbeSelector{Kind: &corev1alpha1.PackageProbeKindSpec{Group: gvkWidget.Group, Kind: gvkWidget.Kind}},
-		Probes: []corev1alpha1.Probe{{Condition: &corev1alpha1.ProbeConditionSpec{Type: "Available", Status: "True"}}},
+		Probes:   []corev1alpha1.Probe{{Condition: &corev1alpha1.ProbeConditionSpec{Type: "Available", Status: "True"}}},
 	}}
 }
 
@@ -479,6 +520,7 @@ func (w *World) Reset(name string) {
 	w.Dyn.Reset()
 	w.SetForceAdoption(false)
 	w.TemplateBase = 0
+	w.HyperShift = false
 	w.BuildControllers()
 	w.Emit(Event{Actor: "sim", Ev: "Reset", Key: "-", Args: map[string]any{"scenario": name}})
 	// the namespaces every scenario lives in
